@@ -403,6 +403,9 @@ def run(chk):
     run_align_and_charge(chk, src)
     run_merge_order(chk, src)
     run_label_freshness(chk, src)
+    # operands of the arithmetic are brought to a common label centre by (partial) canonicalisation sweeps: the centre an object claims must be where its labels have it
+    from .C06 import sweep_centre_rule
+    sweep_centre_rule(chk, src)
     chk.rule("chain-direct-sum", "abstract run of MatrixProduct.add (state and operator form)", 4)
     chain_direct_sum_rule(chk, src)
     chk.rule("overlap-network", "transfer-matrix step of MatrixProduct.dot", 2)
